@@ -7,8 +7,8 @@ from common import Outcome, LeanDriver
 
 ID = "C05"
 PROPS = ["Invoke/Props/C05.lean"]
-TARGETS = ["drv_exit"]
-DRIVER_ROOTS = ["Driver/Exit.lean"]
+TARGETS = ["drv_exit", "drv_runner"]
+DRIVER_ROOTS = ["Driver/Exit.lean", "Driver/Runner.lean"]
 GENERATED = ["Runner"]
 RULE = ("cases = (a) fin: the REAL Runner.run/_finish/Promise.join over a scripted process, full truth table exit code x warn x "
         "hide x pty x timeout {none,unfired,fired} x watcher error x thread exception {none,in,out,err} x sync/async; "
@@ -38,10 +38,12 @@ ASSUMPTIONS = ["Linux wait-status layout (exit code in bits 8..15, signal in bit
 LEVEL_TEXT = ("Lean 4 proofs (waitstatus_decode for all codes 0..255 and signals 1..64 with/without core flag, ok_iff_zero, "
               "finish_decision_table / returns_iff / failure_carries_same_result / warn_irrelevant_for_timeout_and_watcher over "
               "the raise order REGENERATED from the real Runner._finish by probing all 32 cause combinations, "
-              "program_exit_code over the probed Program.run exit map, async_join_same_decision); the model is tied to the "
+              "program_exit_code over the probed Program.run exit map, async_join_same_decision; second_join_same_decision / "
+              "later_joins_same_decision over EVERY schedule of the runner transition system: a second or third Promise.join() "
+              "takes the decision of the first); the model is tied to the "
               "implementation on every run by the generated tables, a differential correspondence check over the full truth "
               "table through the real Runner threads, real wait statuses from the kernel, real children (pty on/off) and the "
-              "real Program.run, plus a direct oracle")
+              "real Program.run, gate-scheduled runs of the real threads with several joins of one promise, plus a direct oracle")
 TECHNIQUE = "Lean 4 theorems (omega/decide/case analysis, all finite) over regenerated tables + model/implementation correspondence + real children"
 
 QUICK_CODES = [0, 1, 2, 126, 127, 128, 255]
@@ -583,6 +585,33 @@ def run(ctx):
                 ok, why = replay(c)
                 if not ok:
                     out.fail(c, why)
+    # several joins of ONE promise on the gate scheduler, against the model's `rejoin` (Props/C05 second_join_same_decision):
+    # random schedules (timer expiry, kills, exits, worker faults, interrupts) through the first join, then one or two
+    # further joins with timer steps in between; model and implementation must agree on EVERY join's outcome, and - the
+    # property - every join must take the decision of the first
+    import runnerio
+    jcases = []
+    for _ in range(ctx.n(160, 1600)):
+        jc = runnerio.gen_case(rng, rng.choice(["timer", "timer", None, "fault"]))
+        if jc["start_fails"]:
+            continue
+        jc["async"] = True
+        jc["joins"] = rng.choice([2, 2, 3])
+        jc["sched"] = jc["sched"] + ["main", "timer", "main", "main"] * 12
+        jcases.append(jc)
+
+    def joins_oracle(case, raw, obs):
+        if obs["main"] != "done" or not obs["earlier"]:
+            return None
+        for k, o in enumerate(obs["earlier"].split(";")):
+            if o != obs["outcome"]:
+                return "join #%d of one promise decided %s, the last join decided %s" % (k + 1, o, obs["outcome"])
+        return None
+
+    before = out.traces
+    runnerio.run_cases(ctx, out, jcases, oracle=joins_oracle)
+    out.hist["gated-multi-join"] += len(jcases)
+    out.extra["gated_multi_join_traces"] = out.traces - before
     out.exhaustive = True
     out.extra["table_obligations"] = 6  # finish_order, finish_probe_agrees/complete, exit_probe_agrees, exit_obj_probe_agrees, exitCodeMap_eq
     out.extra["terminating_signals_probed"] = sigs
